@@ -61,7 +61,7 @@ Reposition(i, signer, r, L2) ==
      /\ ticks' = tk2
      /\ liq' = liq2
      /\ vault' = [vault EXCEPT !["a"] = @ + netA, !["b"] = @ + netB]
-     /\ gain' = [gain EXCEPT ![u]["a"] = @ - netA, ![u]["b"] = @ - netB]
+     /\ gain' = [NewSegment EXCEPT ![u]["a"] = @ - netA, ![u]["b"] = @ - netB]
      /\ credited' = IF has THEN [credited EXCEPT ![i]["a"] = @ + s1.da, ![i]["b"] = @ + s1.db] ELSE credited
      /\ nsteps' = [nsteps EXCEPT ![i] = @ + 2]
      /\ lmax' = [lmax EXCEPT ![i] = IF L2 > @ THEN L2 ELSE @]
